@@ -6,3 +6,32 @@ PTH = 'mouette.processing.paths.'
 fn(PTH + '_check_weight_argument', properties=['C09'], params={'weights': 'str'},
    raises={'InvalidArgumentValueError': 'not (weights == "one" or weights == "length")'},
    note='string modes: exactly "one" and "length" are accepted')
+
+# ---------------------------------------------------------------- path reconstruction of shortest_path (region contract)
+# The statements `for t in targets: v = t; while v != start: ...; paths_list[t].reverse()` turn the predecessor table left by
+# Dijkstra's loop into vertex lists.  Proved for every predecessor table that is a tree towards `start` (logical parameter `depth`
+# strictly decreasing along predecessor links -- what the search loop is relied on to establish: bounded stand-in): the list of
+# every target begins at the start, ends at the target, each step goes from a vertex's predecessor to the vertex (so the path walks
+# along the edges the predecessor links walk along), and the reconstruction terminates.
+predicate('pred_tree', 'path, start, depth', '''(start in path) and all(depth[v] >= 0 and implies(v != start, path[v] is not None and (path[v] in path) and depth[path[v]] < depth[v]) for v in path)''')
+predicate('path_ok', 'L, path, start, t', '''len(L) >= 1 and L[0] == start and L[len(L) - 1] == t and all(path[L[k + 1]] is not None and L[k] == path[L[k + 1]] for k in range(len(L) - 1))''')
+fn(PTH + 'shortest_path#reconstruct', of=PTH + 'shortest_path', properties=['C09'],
+   region=('for t in targets', 'for t in targets'),
+   params={'mesh': 'int', 'start': 'int', 'targets': 'set[int]', 'weights': 'str', 'export_path_mesh': 'bool'},   # mesh, weights: not used by the region (placeholder types)
+   locals={ 'path': 'dict[int,opt[int]]', 'paths_list': 'dict[int,list[int]]', 'v': 'int'},
+   ghost_params={'depth': 'map[int,int]'},
+   requires=['pred_tree(path, start, depth)',
+             'all((t in path) and (t in paths_list) and len(paths_list[t]) == 0 for t in targets)'],
+   modifies=['paths_list'],
+   loops={2: loop(invariant=['all((q in paths_list) for q in targets)',
+                             'all(path_ok(paths_list[key_at(targets, k)], path, start, key_at(targets, k)) for k in range(it2))',
+                             'all(len(paths_list[key_at(targets, k)]) == 0 for k in range(it2, len(targets)))']),
+          3: loop(invariant=['all((q in paths_list) for q in targets)', 't == key_at(targets, it2)', '(v in path)',
+                             'all(path_ok(paths_list[key_at(targets, k)], path, start, key_at(targets, k)) for k in range(it2))',
+                             'all(len(paths_list[key_at(targets, k)]) == 0 for k in range(it2 + 1, len(targets)))',
+                             # the list under construction: t first, then predecessors; v is the next vertex to add
+                             'len(paths_list[t]) >= 0', 'implies(len(paths_list[t]) == 0, v == t)',
+                             'implies(len(paths_list[t]) > 0, paths_list[t][0] == t and path[paths_list[t][len(paths_list[t]) - 1]] is not None and v == path[paths_list[t][len(paths_list[t]) - 1]])',
+                             'all(path[paths_list[t][k]] is not None and paths_list[t][k + 1] == path[paths_list[t][k]] for k in range(len(paths_list[t]) - 1))'],
+                  decreases='depth[v]')},
+   ensures=['all((q in paths_list) and path_ok(paths_list[q], path, start, q) for q in targets)'])
